@@ -93,6 +93,9 @@ def check(case, exclude=True):
         return res
     if wbs_snapshot(w) != before:
         res.v('C12:critical_path-modifies-the-WBS', None)
+    again = list(w.critical_path())
+    if [id(t) for t in again] != [id(t) for t in got]:
+        res.v('C12:second-call-gives-a-different-result', dict(first=[t.id for t in got], second=[t.id for t in again]))
     members = {id(t): t for t in w.tasks}
     crit, length, chains = reference(m)
     bad = [getattr(t, 'id', None) for t in got if id(t) not in members]
